@@ -1,7 +1,9 @@
 import Proofs.C05Wf
+import Proofs.C05Link
 import Props.C01
 import Props.C12
 import Props.C14
+import Props.C13
 /-!
 # C05 — each token has one owner on every replica (property theorems)
 
@@ -95,6 +97,39 @@ theorem token_ranges_total_on_reachable {s : Desc} (h : Reachable s) (za : Bool)
     C14.rangesForInstance s za rf id ≠ .error .inconsistent ∧ C14.rangesForInstance s za rf id ≠ .error .panic :=
   PC14.ranges_never_inconsistent s za rf id
 
+/-- **a long-lived ring client never sees a broken index.** Take C13's model of the ring client (kept
+token indexes, shard caches, the re-indexing shortcut) and ANY history of descriptor updates and
+shuffle-shard queries in which every descriptor delivered to the client is — up to the order in which
+the map entries are listed, the client receiving them in the canonical (sorted) order — a state some
+replica can reach by merging. Then every `Get` / `GetWithOptions` served from the kept indexes — any
+key, operation and time — is the C01 lookup on the latest descriptor, and it never reports
+inconsistent token information and never panics. Composition of `reachable_wf` (C05),
+`observational_equivalence` and `fresh_reads_are_the_models` (C13) and `walk_no_inconsistent` (C01). -/
+theorem longlived_client_lookups_total (st : C13.Streams) (ccfg : C12.Cfg) (steps : List PfC13.Step)
+    (hc : PfC13.CanonSteps steps)
+    (hs : ∀ s ∈ steps, ∀ d, s = .upd d → ∃ r, Reachable r ∧ d.Perm r)
+    (rcfg : C01.Cfg) (key : Nat) (op : C01.Op) (now : Int) (hrf : 1 ≤ rcfg.rf) :
+    let c := PfC13.run st { cfg := ccfg } steps
+    let d := PfC13.lastDesc steps []
+    C13.readGet rcfg c.idx c.desc key op now rcfg.rf = C01.get rcfg d (C01.sortedTokens d) key op now ∧
+    C13.readGet rcfg c.idx c.desc key op now rcfg.rf ≠ .error .inconsistentTokens ∧
+    C13.readGet rcfg c.idx c.desc key op now rcfg.rf ≠ .error .panic := by
+  intro c d
+  have hwf : C01.WFRing d := lastDesc_of_all C01.WFRing steps [] (by simp [C01.WFRing])
+    (fun s hs' d' hd' => by
+      obtain ⟨r, hr, hp⟩ := hs s hs' d' hd'
+      exact wfring_of_perm_wf (PfC05.reachable_wf hr) hp)
+  have hcan : PfC13.Canon d := lastDesc_of_all PfC13.Canon steps [] (by simp [PfC13.Canon]) hc
+  have ho := (PC13.observational_equivalence st ccfg steps hc).2.2.2.2.1 rcfg key op now rcfg.rf
+  have hf := PfC13.fresh_fields ccfg d
+  have hm := (PC13.fresh_reads_are_the_models rcfg d hcan).1 key op now rcfg.rf
+  have e : C13.readGet rcfg c.idx c.desc key op now rcfg.rf = C01.get rcfg d (C01.sortedTokens d) key op now := by
+    have := ho
+    rw [hf.1, hf.2.1] at this
+    rw [this, hm]; rfl
+  have hw := PC01.walk_no_inconsistent rcfg d key op now hwf hrf
+  exact ⟨e, by rw [e]; exact hw.1, by rw [e]; exact hw.2⟩
+
 /-! ### Non-vacuity -/
 
 -- "b" ACTIVE and "a" LEAVING both claim token 2: "b" wins although "a" < "b"; token 1 stays with "a"
@@ -107,5 +142,20 @@ example : (merge false 0 [{ id := "b", ts := 1, tokens := [2, 3] }] [{ id := "a"
 
 example : Reachable (merge false 0 [] [{ id := "a", ts := 1, tokens := [3, 1, 3] }]).state :=
   Reachable.step false 0 _ Reachable.empty
+
+-- a client history meeting the premises of `longlived_client_lookups_total`: two delivered descriptors,
+-- each the sorted listing of a reachable state, with a shard query in between
+def exR1 : Desc := (merge false 0 [] [{ id := "b", ts := 1, tokens := [2, 3] }]).state
+def exR2 : Desc := (merge false 0 exR1 [{ id := "a", ts := 1, tokens := [3, 1, 3] }]).state
+example : Reachable exR1 ∧ Reachable exR2 := ⟨.step false 0 _ .empty, .step false 0 _ (.step false 0 _ .empty)⟩
+example : exR2 = [{ id := "b", ts := 1, tokens := [2] }, { id := "a", ts := 1, tokens := [1, 3] }] := by decide
+example : PfC13.CanonSteps [.upd exR1, .qS "t" 1, .upd exR2.reverse] := by
+  intro s hs d hd
+  simp only [List.mem_cons, List.mem_nil_iff, or_false] at hs
+  rcases hs with rfl | rfl | rfl
+  · cases hd; unfold PfC13.Canon; decide
+  · cases hd
+  · cases hd; unfold PfC13.Canon; decide
+example : exR2.reverse.Perm exR2 := List.reverse_perm _
 
 end PC05
